@@ -107,6 +107,8 @@ CORPUS = [
      ["if x else x", "if if x else x", "x"]),
     ("knuth-lr1", "S: A Ta | Tb A Tc | B Tc | Tb B Ta;\nA: Td;\nB: Td;\nterminals\nTa: 'a';\nTb: 'b';\nTc: 'c';\nTd: 'd';\n",
      ["da", "bdc", "dc", "bda"]),
+    ("regex-alt", "S: X+;\nX: A | B | C;\nterminals\nA: /a|b/;\nB: /[0-9]+|x/;\nC: /(?i)k(e|é)y|λ+/;\n",
+     ["ab", "cb", "a 12 x", "KeY kéy λλ", "b9y", " λa"]),
     # F13 (property C11): two variants named SP2 -> outside `Gen.WF`, never compiled
     ("dup-kind", "S: S Ta {P2} | Ta;\nterminals\nTa: 'a';\n", []),
 ]
@@ -392,6 +394,22 @@ def query_code(code, glr):
     out.join(" | ")
 }
 
+/// sparse match matrix of the GENERATED recognizers on every suffix of the input (same format as harness/dyn
+/// `run::matrix`, which mirrors them); `!` marks an answer that is not a prefix of the suffix it was given
+pub fn verif_matrix(input: &str) -> String {
+    let mut out = String::new();
+    let mut positions: Vec<usize> = input.char_indices().map(|(i, _)| i).collect();
+    positions.push(input.len());
+    for (t, r) in RECOGNIZERS.iter().enumerate() {
+        for &p in &positions {
+            if let Some(m) = r.recognize(&input[p..]) {
+                out += &format!(" {}@{}={}{}", t, p, m.len(), if input[p..].starts_with(m) { "" } else { "!" });
+            }
+        }
+    }
+    out
+}
+
 fn verif_fnv(s: &str) -> String {
     let mut h: u64 = 0xcbf29ce484222325;
     for b in s.bytes() { h ^= b as u64; h = h.wrapping_mul(0x100000001b3); }
@@ -463,6 +481,12 @@ fn main() {
         };
         if r == "timeout" { *hung.entry(f[0].to_string()).or_insert(0) += 1; }
         println!("{} P {} {}", f[0], f[1], r);
+        let input = unhex(f[2]);
+        let m = match f[0] {
+@MATRICES@
+            _ => "?".to_string(),
+        };
+        if m != "?" { println!("{} M {} |{}", f[0], f[1], m); }
     }
     std::process::exit(0);
 }
@@ -500,7 +524,9 @@ def run_chunk(cases, sel, wd, tag, target):
                 fh.write(MAIN_RS.replace("@MODS@", "".join(f"mod {n};\n" for n, _, _ in live))
                          .replace("@QUERIES@", "".join(f'    println!("{n} {{}}", {n}::verif_query());\n' for n, _, _ in live))
                          .replace("@PARSES@", "".join(f'            "{n}" => with_timeout(move || {n}::verif_parse(&input)),\n'
-                                                      for n, _, _ in live)))
+                                                      for n, _, _ in live))
+                         .replace("@MATRICES@", "".join(f'            "{n}" => {n}::verif_matrix(&input),\n'
+                                                        for n, _, _ in live if n.endswith("a"))))
             rc, out, err = sh(["cargo", "build", "--offline"], cwd=crate, timeout=3000, env=env)
             if rc == 0:
                 break
@@ -533,7 +559,7 @@ def run_chunk(cases, sel, wd, tag, target):
             lines = (o.decode(errors="replace") if isinstance(o, bytes) else o).splitlines()
             counters["batch:timeout"] = 1
         for name, i, lay in live:
-            cases[i].beh[lay] = {"Q": None, "P": {}}
+            cases[i].beh[lay] = {"Q": None, "P": {}, "M": {}}
         for line in lines:
             f = line.split(" ", 1)
             if len(f) < 2 or not f[0].startswith("p"):
@@ -544,6 +570,9 @@ def run_chunk(cases, sel, wd, tag, target):
             elif f[1].startswith("P "):
                 _, k, r = f[1].split(" ", 2)
                 cases[i].beh[lay]["P"][int(k)] = r
+            elif f[1].startswith("M "):
+                g = f[1].split(" ", 2)
+                cases[i].beh[lay]["M"][int(g[1])] = g[2][1:] if len(g) > 2 else ""
         return True, "", counters
     finally:
         for f in glob.glob(os.path.join(target, "debug", pkg + "*")) + glob.glob(os.path.join(target, "debug", "deps", pkg + "*")):
@@ -650,6 +679,47 @@ def evaluate_static(rep, c):
         rep.count("branch:prod-kind-meta")
 
 
+def mirror_tie(rep, cases, sel):
+    """Tie between the GENERATED recognizers (RECOGNIZERS array + TokenRecognizer::recognize of the compiled parser)
+    and their mirror in harness/dyn (`tab::recognize`), on which the runtime checks C01-C07, C12-C15 rely (their
+    parsers are driven from a loaded table with the mirror as recognizer): the sparse match matrix of every parse
+    input, over every suffix and every terminal, must be the same."""
+    import lrfamily as lf
+    from common import build_harness
+    ok, log = build_harness()
+    if not ok:
+        rep.oblige("cargo build harness/dyn (recognizer mirror tie)", False, log[-800:])
+        return
+    lcs, idx = [], []
+    for i in sel:
+        c = cases[i]
+        a = c.beh.get("A") or {}
+        if not a.get("M") or not c.inputs:
+            continue
+        st = list(c.settings) + ["-"] * (10 - len(c.settings))
+        lcs.append(lf.Case(c.grammar, st[:10], [(c.algo, "0", inp, {}) for inp in c.inputs], gram=None, tag="mirror"))
+        lcs[-1].max_trees = 0
+        idx.append(i)
+    if not lcs:
+        return
+    lf.run_cases(lcs, model=False)
+    for i, lc in zip(idx, lcs):
+        c = cases[i]
+        if lc.dump is None:
+            continue
+        for k, inp in enumerate(c.inputs):
+            got = c.beh["A"]["M"].get(k)
+            if got is None or k >= len(lc.matrices):
+                continue
+            rep.count("mirror:inputs")
+            rep.count("mirror:matrix-entries", got.count("@"))
+            if got.strip() != lc.matrices[k].strip():
+                c.problems.append(("impl≠oracle" if "!" in got else "mirror",
+                                   f"generated recognizers and their harness mirror disagree on input {inp!r}: generated `{got.strip()[:200]}` "
+                                   f"mirror `{lc.matrices[k].strip()[:200]}`" + (" (`!`: the generated recognizer returned a string that is "
+                                   "not a prefix of the input it was given)" if "!" in got else "")))
+
+
 def evaluate_behaviour(rep, c):
     if not c.beh:
         return
@@ -719,7 +789,8 @@ def report(rep, cases, proofs_ok):
         elif corr < 3:
             p = c.payload()
             p["what"] = [f"{k}: {d}" for k, d in c.problems][:5]
-            p["broken"] = "corr:gen-code" if "impl≠model" in kinds else "machinery"
+            p["broken"] = ("corr:gen-code" if "impl≠model" in kinds else
+                           "corr:recognizer-mirror (harness/dyn tab::recognize vs generated RECOGNIZERS)" if "mirror" in kinds else "machinery")
             rep.violation(p, no_input=True)
             corr += 1
     if not proofs_ok and viol == 0 and corr == 0:
@@ -772,6 +843,7 @@ def pipeline(rep, cases, rng, n_batch, wd, workers=1):
         rep.oblige("cargo build of the batch of generated parsers against /repo/rustemo", ok, log[-1500:])
         if not ok:
             rep.violation({"broken": "batch crate build", "log": log[-3000:]}, no_input=True)
+        mirror_tie(rep, cases, sel)
         for i in sel:
             evaluate_behaviour(rep, cases[i])
     rep.notes.append(f"wall: generation+extraction {t1 - t0:.0f}s, Lean driver {t2 - t1:.0f}s, "
